@@ -44,6 +44,10 @@ fn main() {
         }
         Some("hdlc") => hdlc::run(&args),
         Some("graphs") => graphs::run(&args),
+        Some("repro") => {
+            graphs::repro(&args);
+            vec![]
+        }
         Some("sources") => sources::run(&args),
         Some("conc") => conc::run(&args),
         Some("waits") => waits::run(&args),
